@@ -81,10 +81,10 @@ impl Cli {
         self.clock = crate::server::next_clock(rng, self.clock, self.clock_mode);
     }
 
-    fn wire_record(&mut self, rs: &[ClientSessionResult]) {
+    fn wire_record(&mut self, rs: &[ClientSessionResult], site: &str) {
         let taps = rml_rtmp::verif::tap_drain();
         if let Some(wl) = self.wire.as_mut() {
-            wl.record(&packets_of(rs), taps);
+            wl.record(&packets_of(rs), taps, site);
         }
     }
 
@@ -96,7 +96,7 @@ impl Cli {
         let mut peer = Peer::new();
         let results = results_json(&mut peer, &rs);
         let mut c = Cli { s, peer, clock, txns: vec![], sids: vec![], wire, clock_mode: 0, frag: None, pending: vec![] };
-        c.wire_record(&rs);
+        c.wire_record(&rs, "new");
         let ev = json!({"ev":"New","cfg":cfgj,"res":"ok","results":results,"probe":probe_json(&c.s),"clk":w(clock as u32)});
         (c, ev)
     }
@@ -133,8 +133,8 @@ impl Cli {
         let _ = rml_rtmp::verif::tap_drain();
         let r = catch_unwind(AssertUnwindSafe(|| self.s.handle_input(bytes)));
         match &r {
-            Ok(Ok(rs)) => self.wire_record(rs),
-            _ => self.wire_record(&[]),
+            Ok(Ok(rs)) => self.wire_record(rs, "handle_input"),
+            _ => self.wire_record(&[], "handle_input"),
         }
         let (res, results) = match r {
             Ok(Ok(rs)) => ("ok".to_string(), results_json(&mut self.peer, &rs)),
@@ -152,9 +152,10 @@ impl Cli {
             let s = &mut self.s;
             catch_unwind(AssertUnwindSafe(|| f(s)))
         };
+        let site = desc["m"].as_str().unwrap_or("call").to_string();
         match &r {
-            Ok(Ok(rs)) => self.wire_record(rs),
-            _ => self.wire_record(&[]),
+            Ok(Ok(rs)) => self.wire_record(rs, &site),
+            _ => self.wire_record(&[], &site),
         }
         let (res, results) = match r {
             Ok(Ok(rs)) => ("ok".to_string(), results_json(&mut self.peer, &rs)),
